@@ -128,6 +128,124 @@ def native_fixed_dates(kind, counts):
     return (bool(bad), {"dates": ts.tolist(), "jumps_per_interval": list(counts), "jump_path": got_j.tolist(), "running_sum_of_increments": want_j.tolist()})
 
 
+class FixedDatesPreComputation(Lemma):
+    """levyprocess.SimulationFixedTimes.pre_computation (real body, 2 paths, 1-3 product dates, every draw a distinct
+    symbol): the stored times are the product's time grid, the stored scale of interval k squares to t_{k+1} - t_k (the
+    length of THAT interval), one jump count is drawn per path and interval with that interval's length, one Brownian
+    increment per path, dimension and interval; nothing is shared between paths."""
+    prop = "C15"
+    cases = (1, 2, 3)
+
+    def __init__(self):
+        self.name = "property:fixed-dates-pre-computation"
+
+    def prove(self, vc, n):
+        nm = f"{self.name}[{n} product date(s)]"
+        ts = times_grid(vc, n)
+        it = vc.interp
+        counts, normals = [], []
+
+        def nb_jump_dt(it_, f, b):
+            x = vc.fresh("N", "i")
+            vc.assume(x >= 0)
+            counts.append((x, b["dt"]))
+            return x
+        it.hooks[LP + "LevyProcess.nb_jump_dt"] = nb_jump_dt
+
+        def normal(it_, *a, size=None, **k):
+            shape = tuple(int(v) for v in (size if isinstance(size, (tuple, list)) else (size,)))
+            arr = np.empty(shape, dtype=object)
+            arr.reshape(-1)[:] = fresh_list(vc, "Z", int(np.prod(shape)))
+            normals.append(arr)
+            return arr
+        it.native_hooks = {id(np.random.normal): normal}
+        it.hooks["rpylib.process.process:Process.dimension"] = lambda it_, f, b: 1
+        it.hooks["rpylib.product.product:Product.times_grid"] = lambda it_, f, b: np.array(ts, dtype=object)
+        proc = vc.obj(LP + "LevyProcess", model=vc.obj("rpylib.model.levymodel.levymodel:LevyModel"))
+        sim = vc.new(LP + "SimulationFixedTimes", proc)
+        vc.method(sim, "pre_computation", 2, vc.obj("rpylib.product.product:Product"))
+        vc.check(nm + "::times-are-the-product-time-grid", seq_eq(sim.fields["_times"], ts))
+        sq = as_list(sim.fields["_sqrt_dts"])
+        vc.check(nm + "::one-scale-per-interval", len(sq) == n)
+        if len(sq) == n:
+            vc.check(nm + "::scale-of-interval-k-squares-to-its-own-length", And(*[And(s_ >= 0, s_ * s_ == b - a) for s_, a, b in zip(sq, ts, ts[1:])]))
+        pois = list(sim.fields["_poisson_rv"])
+        brow = list(sim.fields["_brownian_increments"])
+        vc.check(nm + "::one-row-of-jump-counts-and-brownian-increments-per-path", len(pois) == 2 and len(brow) == 2)
+        vc.check(nm + "::one-jump-count-per-path-and-interval-with-that-interval's-length", len(counts) == 2 * n and And(*[compare(dt, ts[k + 1] - ts[k], "==") for k in range(n) for (x, dt) in [c for c in counts if any(c[0] is row[k] for row in pois if len(row) == n)]]))
+        flat_counts = [x for row in pois for x in row]
+        vc.check(nm + "::every-stored-jump-count-is-its-own-draw", len(flat_counts) == 2 * n and len({id(x) for x in flat_counts}) == 2 * n and all(any(x is c[0] for c in counts) for x in flat_counts))
+        flat_z = [z for row in brow for z in np.ravel(np.asarray(row, dtype=object))]
+        vc.check(nm + "::every-stored-brownian-increment-is-its-own-draw", len(flat_z) == 2 * n and len({id(z) for z in flat_z}) == 2 * n)
+
+    def replay(self, model, clause, n):
+        from contracts import battery
+        import rpylib.process.levyprocess as LPm
+        m = battery.models(("hem",))["hem"]
+        ts = np.concatenate(([0.0], np.cumsum(0.3 + 0.2 * np.arange(n))))
+
+        class P:
+            def times_grid(self):
+                return ts
+        sim = LPm.SimulationFixedTimes(LPm.LevyProcess(m))
+        np.random.seed(2)
+        sim.pre_computation(3, P())
+        ok = np.allclose(np.asarray(sim._sqrt_dts) ** 2, np.diff(ts)) and np.allclose(sim._times, ts) and len(sim._poisson_rv) == 3 and len(sim._brownian_increments) == 3
+        return (not ok, {"time_grid": ts.tolist(), "stored_scales_squared": (np.asarray(sim._sqrt_dts) ** 2).tolist(), "interval_lengths": np.diff(ts).tolist()})
+
+
+class CoupledJumpTimesPath(Lemma):
+    """CouplingSimulationWithJumpTimes.simulate_one_path_with_coupling (real body, real simulate_diffusion_with_coupling; the
+    coupled jump values abstract, 0 or 2 jumps): both components live on the same times 0, the jump times, maturity; each
+    component starts at 0, carries ITS OWN jump values and repeats ITS OWN last value at maturity; the diffusion of both
+    components is the running sum of the same normals scaled by sqrt(gap) and the component's own coefficient."""
+    prop = "C15"
+    cases = (0, 2)
+
+    def __init__(self):
+        self.name = "property:coupled-jump-time-path"
+
+    def prove(self, vc, n):
+        nm = f"{self.name}[{n} jump(s)]"
+        CS = "rpylib.process.coupling.couplingmarkovchain:"
+        T = vc.real("maturity")
+        jt = vc.reals("t", n)
+        vc.assume(And(T > 0, *[a < b for a, b in zip([0.0] + jt, jt + [T])]))
+        fine, coarse = vc.reals("fine", n), vc.reals("coarse", n)
+        sf, sc = vc.real("sigma_fine"), vc.real("sigma_coarse")
+        vc.assume(And(sf >= 0, sc >= 0))
+        it = vc.interp
+        normals = []
+        it.native_hooks = {id(np.random.normal): lambda it_, *a, size=None, **k: (normals.extend(xs := fresh_list(vc, "W", int(size))) or np.array(xs, dtype=object))}
+        arr = lambda xs: np.array(xs, dtype=object) if xs else np.array([], dtype=float)
+        it.hooks[CS + "CouplingSimulationWithJumpTimes.simulate_jumps_with_coupling"] = lambda it_, f, b: (arr(jt), arr(fine), arr(coarse))
+        cp = vc.obj(CS + "CouplingMarkovChain", equivalent_diffusion_coefficient_fine=sf, equivalent_diffusion_coefficient_coarse=sc)
+        sim = vc.obj(CS + "CouplingSimulationWithJumpTimes", coupling_process=cp, _maturity=T)
+        path = vc.method(sim, "simulate_one_path_with_coupling")
+        pt = as_list(path.fields["jump_times"])
+        J, D = np.asarray(path.fields["jump_path"], dtype=object), np.asarray(path.fields["diffusion_path"], dtype=object)
+        m = n + 2
+        vc.check(nm + "::times-are-zero-the-jump-times-and-the-maturity", seq_eq(pt, [0.0] + jt + [T]))
+        vc.check(nm + "::two-components-with-one-value-per-time", J.shape == (2, m) and D.shape == (2, m))
+        if J.shape != (2, m) or D.shape != (2, m):
+            return
+        vc.check(nm + "::fine-component-carries-its-own-jump-values-and-keeps-its-last-value-to-maturity", seq_eq(J[0], [0.0] + fine + [fine[-1] if n else 0.0]))
+        vc.check(nm + "::coarse-component-carries-its-own-jump-values-and-keeps-its-last-value-to-maturity", seq_eq(J[1], [0.0] + coarse + [coarse[-1] if n else 0.0]))
+        vc.check(nm + "::one-normal-per-gap", len(normals) == m - 1)
+        if len(normals) == m - 1:
+            ok = [compare(D[0, 0], 0.0, "=="), compare(D[1, 0], 0.0, "==")]
+            for k in range(1, m):
+                gap = pt[k] - pt[k - 1]
+                for comp, sg in ((0, sf), (1, sc)):
+                    inc = D[comp, k] - D[comp, k - 1]
+                    ok.append(And(inc * inc == sg * sg * gap * normals[k - 1] * normals[k - 1], inc * normals[k - 1] >= 0))
+            vc.check(nm + "::both-diffusions-use-the-same-normal-per-gap-scaled-by-their-own-coefficient", And(*ok))
+
+    def replay(self, model, clause, n):
+        r = SimulatorBattery().run("quick", 0)
+        return (bool(r["violations"]), {"simulator_battery_violations": [v["obligation"] for v in r["violations"]][:3]})
+
+
 class JumpTimesDirect(Lemma):
     """levyprocess.SimulationWithJumpTimes.simulate_one_path (product dates t_1 < .. < t_n = maturity, jump counts per
     interval enumerated, jump times symbolic and sorted inside their interval): times = 0, the jump times, maturity,
@@ -391,7 +509,7 @@ class ChainRunningSum(Lemma):
         return (got != want, {"mode": mode, "jumps_per_interval": list(counts), "sampled_state_values": flat, "jump_component": got, "running_sum": want})
 
 
-UNITS = [FixedDatesDirect(), JumpTimesDirect(), BuildFinerGrid(), MaxStepPath(), ChainRunningSum()]
+UNITS = [FixedDatesDirect(), FixedDatesPreComputation(), JumpTimesDirect(), CoupledJumpTimesPath(), BuildFinerGrid(), MaxStepPath(), ChainRunningSum()]
 ASSUMPTIONS = ["A1: floats are mathematical reals", "sorted uniform jump times are distinct and strictly inside their interval (almost surely)",
                "array lengths are enumerated (dates <= 3, jumps per interval <= 3, step-cap insertions: gaps < 3 epsilon): complete in the values, bounded in the sizes"]
 TRUSTED_BASE = ["z3 5.1 (NRA for the sqrt(dt) scaling)", "pyvc interpreter + numpy models (concatenate, cumsum, insert, diff, flatnonzero, where)"]
@@ -431,6 +549,9 @@ class SimulatorBattery:
                 viol.setdefault("shape", {"obligation": f"{self.name}::one-value-per-time-for-every-component", "bounded": self.name, "witness": {**info, "jump_shape": list(jp.shape), "diffusion_shape": list(dp.shape)}})
             elif np.any(jp[:, 0] != 0) or np.any(dp[:, 0] != 0):
                 viol.setdefault("zero", {"obligation": f"{self.name}::path-starts-at-zero", "bounded": self.name, "witness": info})
+            if eps is not None and t.size > 2 and jp.shape[-1] == t.size and np.any(jp[:, -1] != jp[:, -2]):
+                viol.setdefault("last", {"obligation": f"{self.name}::every-component-keeps-its-own-last-jump-value-to-maturity", "bounded": self.name,
+                                         "witness": {**info, "jump_values_before_maturity": jp[:, -2].tolist(), "jump_values_at_maturity": jp[:, -1].tolist()}})
             if eps is not None and t.size > 2 and np.any(np.diff(t)[:-1] > eps * (1 + 1e-9)):
                 viol.setdefault("cap", {"obligation": f"{self.name}::steps-before-the-final-one-at-most-epsilon", "bounded": self.name, "witness": {**info, "largest_inner_step": float(np.diff(t)[:-1].max())}})
         with warnings.catch_warnings():
